@@ -99,6 +99,44 @@ impl World {
         }
     }
 
+    /// `Cc::new_cyclic` from a destructor that runs because the thread is unwinding: an object outside the mirror,
+    /// created, checked and released on the spot (automatic collection switched off meanwhile).
+    #[cfg(feature = "weak")]
+    fn unwinding_cyclic_probe(&self) {
+        use crate::compat::*;
+        let auto_was = cfg_read().map(|c| c.0);
+        if auto_was == Some(true) {
+            cfg_set_auto(false);
+        }
+        let r = std::panic::catch_unwind(std::panic::AssertUnwindSafe(|| {
+            let mut saved: Option<rust_cc::weak::Weak<Plain>> = None;
+            let cc = Cc::new_cyclic(|w| {
+                saved = Some(w.clone());
+                Plain(77)
+            });
+            let w = saved.expect("closure ran");
+            let up = w.upgrade();
+            let ok = cc.strong_count() == if up.is_some() { 2 } else { 1 } && up.as_ref().map_or(false, |u| Cc::ptr_eq(u, &cc)) && cc.0 == 77 && w.strong_count() >= 1;
+            drop(up);
+            drop(cc);
+            let dead = w.upgrade().is_none() && w.strong_count() == 0;
+            drop(w);
+            ok && dead
+        }));
+        if auto_was == Some(true) {
+            cfg_set_auto(true);
+        }
+        self.stats.borrow_mut().bump("new_cyclic_while_unwinding");
+        match r {
+            Ok(true) => {}
+            Ok(false) => self.fail("O-CYCLIC.unwinding", "a Cc returned by new_cyclic while the thread was unwinding is not alive / its Weak clones do not upgrade to it".to_string()),
+            Err(_) => self.fail("O-CYCLIC.unwinding", "new_cyclic panicked although its closure did not (called while the thread was unwinding)".to_string()),
+        }
+        self.sync();
+    }
+    #[cfg(not(feature = "weak"))]
+    fn unwinding_cyclic_probe(&self) {}
+
     fn child_ptr(&self, node: &Node, slot: i64) -> Option<(*const AnyCc, ObjId, u32)> {
         let id = node.head.id;
         let st = node.store.try_borrow().ok()?;
@@ -173,7 +211,11 @@ impl World {
     pub fn run_script(&self, ctx: ScriptCtx, node: Option<&Node>, script: &[Mini]) {
         if std::thread::panicking() {
             // a callback reached by unwinding (e.g. the destructor of a value whose creation failed) stays passive:
-            // a second panic would abort the process, and the harness frames are not yet unwound
+            // a second panic would abort the process, and the harness frames are not yet unwound.
+            // One self-contained probe is allowed: new_cyclic must work while the thread is unwinding (C14).
+            if ctx == ScriptCtx::Drop && script.iter().any(|m| m.code == MiniCode::AllocCyclic) {
+                self.unwinding_cyclic_probe();
+            }
             return;
         }
         for mini in script {
